@@ -616,6 +616,7 @@ pub fn run(ctx: &mut Ctx) {
     reload_race(ctx);
     ctx.run_suite(&super::frontdoor::FrontDoorSuite);
     ctx.run_suite(&super::c05proc::ReloadSuite);
+    ctx.run_suite(&super::c05quic::QuicRoutingSuite);
     ctx.assume("alternative SNIs equal to a configured host name are not generated (validate() does not forbid them and their routing would be ambiguous by configuration)");
     ctx.assume("select() is transport-agnostic: an h3 result on TCP is turned into a refusal by the caller (on_new_tls_connection), which the full-stack scenarios observe");
     ctx.assume("reload interleavings with real threads are sampled, not owned");
@@ -628,6 +629,7 @@ pub fn replay(ctx: &mut Ctx, suite: &str, case: &Value) -> bool {
         "select-with-reloads" => ctx.replay_suite(&SelectSuite { with_reloads: true }, case),
         "tls-front-door" => ctx.replay_suite(&super::frontdoor::FrontDoorSuite, case),
         "process-reload" => ctx.replay_suite(&super::c05proc::ReloadSuite, case),
+        "quic-sni-routing" => ctx.replay_suite(&super::c05quic::QuicRoutingSuite, case),
         _ => false,
     }
 }
